@@ -359,7 +359,12 @@ def detectXMLEncoding(fp, log=None, includeDefault=True):  # noqa: C901
     # go to beginning of file and get the first 4 bytes
     oldFP = fp.tell()
     fp.seek(0)
-    (byte1, byte2, byte3, byte4) = tuple(map(ord, fp.read(4)))
+    try:
+        (byte1, byte2, byte3, byte4) = tuple(map(ord, fp.read(4)))
+    except ValueError:
+        # fewer than 4 bytes: leave the stream as it was found
+        fp.seek(oldFP)
+        raise
 
     # try bom detection using 4 bytes, 3 bytes, or 2 bytes
     bomDetection = bomDict.get((byte1, byte2, byte3, byte4))
